@@ -277,13 +277,20 @@ def self_referential(src):
         if m.group(3).count(call) >= 2: return True
     return False
 def reclassify_self_referential_notes(rep):
-    """hangs / stack overflows whose input is a self-referential note get their own signature (one root cause: the LaTeX and
-    OpenDocument writers expand notes inline, so a note that calls itself twice expands exponentially within the 1000-deep guard)"""
+    """Failures whose input/stack identifies one known root cause get that root cause's own signature (so that the generic
+    sanitizer signature stays free for anything else):
+    * a self-referential note expanded inline by the LaTeX/OpenDocument writers (hang, stack overflow, or a NULL note further down);
+    * a note/abbreviation inside a heading when the EPUB navigation document is built with a second scratch pad."""
     for sig in list(rep.viol):
-        if sig == "hang" or sig.startswith("crash:signal") or sig.startswith("asan:stack-overflow"):
-            v = rep.viol[sig]
-            if v["cases"] and all(self_referential(c.get("src", "")) and c.get("format") in ("latex", "beamer", "memoir", "fodt", "odt") for c in v["cases"]):
-                del rep.viol[sig]
-                n = rep.viol.setdefault("self-referential-note:inline-expansion-does-not-return", dict(count=0, detail=v["detail"], cases=[], replay=v.get("replay")))
-                n["count"] += v["count"]; n["cases"] = (n["cases"] + v["cases"])[:3]
-
+        v = rep.viol[sig]
+        if not v["cases"]: continue
+        generic = sig == "hang" or sig.startswith("crash:signal") or sig.startswith("asan:stack-overflow") or "null-pointer-of-type-'footnote'" in sig
+        if generic and all(self_referential(c.get("src", "")) and c.get("format") in ("latex", "beamer", "memoir", "fodt", "odt") for c in v["cases"]):
+            new = "self-referential-note:inline-expansion-does-not-return"
+        elif "null-pointer-of-type-'footnote'" in sig and "epub_export_nav_entry" in str(v["detail"]) and all(c.get("format") == "epub" for c in v["cases"]):
+            new = "epub-nav:note-inside-heading:null-note"
+        else:
+            continue
+        del rep.viol[sig]
+        n = rep.viol.setdefault(new, dict(count=0, detail=v["detail"], cases=[], replay=v.get("replay")))
+        n["count"] += v["count"]; n["cases"] = (n["cases"] + v["cases"])[:3]
